@@ -148,7 +148,7 @@ PYTH3 = [(1, 2, 2, 3), (2, 3, 6, 7), (1, 4, 8, 9), (0, 0, 1, 1), (4, 4, -7, 9), 
 def quad_case(draw, tier="quick"):
     d = draw(st.sampled_from([2, 3]))
     return {"d": d, "n": draw(Z.params(9)), "m": draw(Z.params(9)), "mclass": draw(st.sampled_from(Z.MCLASSES)), "pt": draw(st.integers(0, 5)), "pt2": draw(st.integers(0, 5)),
-            "h": draw(C.ivec(d + 1, 5)), "off": draw(C.hpoint(d, 5)), "cls": draw(st.sampled_from(["Quadric", "Conic"])), "scale": draw(C.scale()), "used": draw(st.booleans())}
+            "h": draw(C.ivec(d + 1, 5)), "off": draw(C.hpoint(d, 5)), "cls": draw(st.sampled_from(["Quadric", "Conic"])), "scale": draw(C.scale()), "used": draw(st.booleans()), "cplx": draw(st.sampled_from([False, False, True]))}
 
 
 def run_quad(c):
@@ -220,6 +220,33 @@ def run_quad(c):
             continue
         ck.check(bool(b) == truth, f"quadric:is_tangent:{name}:before", (bool(b), truth))
         ck.check(bool(a) == truth, f"quadric:is_tangent:{name}:after", (bool(a), truth))
+    # complex coordinates: a transformation with Gaussian-integer entries, and the same quadric with complex coefficients
+    # (S' = D^T S D with a complex diagonal D, points D^-1 x): incidence and tangency are algebraic, nothing is conjugated
+    if c.get("cplx"):
+        rng = [int(v) for v in c["m"]]
+        Mi = np.array(tmat(c), dtype=complex)
+        Mi = Mi + 1j * np.array([[(rng[(3 * i + j) % len(rng)] % 3) - 1 for j in range(n)] for i in range(n)], dtype=float)
+        if abs(np.linalg.det(Mi)) > 0.5:
+            tc = Transformation(Mi)
+            xc = np.array(f2(x) / float(xs), dtype=complex)
+            for name, Qc, Xc in (("complex-map", Q, xc),
+                                 ("complex-quadric", cls(np.diag([1, 1j, 1, 2][:n]) @ np.asarray(Sa, dtype=complex) @ np.diag([1, 1j, 1, 2][:n])), np.array([1, -1j, 1, 0.5][:n]) * xc)):
+                tt = tc if name == "complex-map" else t
+                img, f = call(f"t*quadric:{name}", lambda: tt * Qc)
+                if f:
+                    ck.add(f)
+                    continue
+                b, f = call(f"quadric.contains:{name}", Qc.contains, Point(Xc))
+                a, g = call(f"quadric.contains:{name}", lambda: img.contains(tt * Point(Xc)))
+                if f or g:
+                    ck.add(f or g)
+                    continue
+                ck.check(bool(b), f"quadric:{name}:contains:before", bool(b))
+                ck.check(bool(a), f"quadric:{name}:contains:after", bool(a))
+                A = np.asarray(img.array, dtype=complex)
+                y = np.asarray(tt.array, dtype=complex) @ Xc
+                A, y = A / np.max(np.abs(A)), y / np.max(np.abs(y))
+                ck.check(abs(y @ A @ y) < 1e-7, f"quadric:{name}:image-point-on-image-quadric(algebraic)", complex(y @ A @ y))
     # the dual quadric (two covariant indices) is an object in its own right: it can be transformed, the image of the dual is
     # the dual of the image, and it contains exactly the tangent hyperplanes before and after
     if abs(np.linalg.det(Sa)) > 1e-6:
@@ -359,7 +386,7 @@ LAWS = [
         "t*join(..) = join(t*..), t*meet(..) = meet(t*..) for every arity/kind", shard=400),
     Law("incidence", lambda tier: inc_case(tier), run_inc, nontrivial, lambda c: [c["cfg"], "on" if c["on"] else "off"], {"quick": 1200, "thorough": 30000},
         "contains before = contains after = exact truth value", shard=400),
-    Law("quadric", lambda tier: quad_case(tier), run_quad, nontrivial, lambda c: [f"d{c['d']}", c["cls"]] + (["queried-before-transformed"] if c.get("used") else []), {"quick": 800, "thorough": 20000},
+    Law("quadric", lambda tier: quad_case(tier), run_quad, nontrivial, lambda c: [f"d{c['d']}", c["cls"]] + (["queried-before-transformed"] if c.get("used") else []) + (["complex"] if c.get("cplx") else []), {"quick": 800, "thorough": 20000},
         "point on/off quadric, tangent hyperplane, is_tangent before and after", shard=300),
     Law("crossratio", lambda tier: cr_case(tier), run_cr, nontrivial, lambda c: [c["form"], f"d{c['d']}"] + (["pencil-of-parallel-lines"] if c["d"] == 3 and c["form"] == "lines" and c.get("vinf") else []), {"quick": 1000, "thorough": 20000},
         "cross ratio of four collinear points / lines / from a viewpoint: exact value and invariance", shard=400),
